@@ -199,6 +199,10 @@ for v in ck.violations:
             v['replayed'] = rep.get('replay1_ok') is False or rep.get('replay1_matches') is False
         else:
             v['replayed'] = rep.get('replay2_ok') is False or rep.get('new_record_recovered') is False or rep.get('replay2_prefix_matches') is False
+    elif w.get('recover'):
+        rep = Replay.call({'op': 'coordinator_recover', **w})
+        v['native'] = rep
+        v['replayed'] = rep.get('violates')
     elif w.get('vote_outcome'):
         # an all-Yes vote set ends Aborting only through the cross-shard conflict branch; Prepared otherwise
         tries = [{'vote_kind': w['vote_kind'], 'conflict': c_} for c_ in ((True, False) if w['vote_kind'] == PV_ALL['Yes'] else (False,))]
